@@ -20,12 +20,14 @@ import (
 func init() { register("C01", checkC01) }
 
 type c01Case struct {
-	choices []int
-	cs      *fo.Case
-	src     string
-	want    string
-	wantDef string // output under the partial-application defect model
-	ood     string
+	choices  []int
+	cs       *fo.Case
+	src      string
+	want     string
+	wantDef  string // output under the partial-application defect model
+	wantLeak string // output under the string-match-variable defect model (alone / together with the first one)
+	wantBoth string
+	ood      string
 }
 
 var c01Types = []fo.Type{"int", "string", "bool", "unit"}
@@ -247,6 +249,8 @@ func c01RunBatch(c *core.Ctx, sc *impl.Scratch, fc string, cases []*c01Case, use
 			continue
 		}
 		cs.wantDef, _ = cs.cs.Expected(true)
+		cs.wantLeak, _ = cs.cs.ExpectedUnder(false, true)
+		cs.wantBoth, _ = cs.cs.ExpectedUnder(true, true)
 		cs.src = cs.cs.Source(nil)
 		k := len(progs)
 		progs = append(progs, gobatch.Prog{Defs: c01Suffix(cs.src, k), Run: fmt.Sprintf("run_%d", k)})
@@ -299,6 +303,9 @@ func c01Classify(cs *c01Case, r gobatch.Result) (sig, what string) {
 func c01ClassifyGen(cs *c01Case, r gobatch.Result) (sig, what string) {
 	switch r.Status {
 	case "ok":
+		if cs.wantLeak != cs.want && (r.Stdout == cs.wantLeak || r.Stdout == cs.wantBoth) {
+			return "C01:string-match-variable-visible-in-literal-arms", fmt.Sprintf("the variable of the last rule of a string match is bound in the literal arms too and captures an outer variable of the same name: expected %q, got %q", cs.want, r.Stdout)
+		}
 		if cs.wantDef != cs.want && r.Stdout == cs.wantDef {
 			return "C01:partial-application-argument-re-evaluated", fmt.Sprintf("the supplied argument of a partial application is evaluated at each call of the closure instead of once when the closure is created: expected %q, got %q", cs.want, r.Stdout)
 		}
